@@ -12,9 +12,10 @@ import (
 // giving the port back to the kernel: while refusing, a bound but not listening socket keeps the
 // number reserved (connects are answered with RST), so no other socket of this machine can take it.
 type portSwitch struct {
-	port int
-	ln   net.Listener
-	ph   int // placeholder socket, -1 = none
+	port   int
+	ln     net.Listener
+	ph     int      // placeholder socket, -1 = none
+	filler net.Conn // connection that fills the accept queue of a black-hole placeholder
 }
 
 func newPortSwitch() *portSwitch { return &portSwitch{ph: -1} }
@@ -24,10 +25,7 @@ func (p *portSwitch) listen() (net.Listener, error) {
 	if p.ln != nil {
 		return p.ln, nil
 	}
-	if p.ph >= 0 {
-		syscall.Close(p.ph)
-		p.ph = -1
-	}
+	p.release()
 	var err error
 	for i := 0; i < 40; i++ {
 		var ln net.Listener
@@ -43,7 +41,14 @@ func (p *portSwitch) listen() (net.Listener, error) {
 }
 
 // refuse switches to "refusing". closeFn closes the listener (and whatever serves it).
-func (p *portSwitch) refuse(closeFn func()) error {
+func (p *portSwitch) refuse(closeFn func()) error { return p.fail(closeFn, false) }
+
+// blackhole switches to "connects time out": the placeholder listens with an accept queue of one
+// entry that is filled by a connection of our own and never accepted; the kernel then drops every
+// further SYN, so a connect neither succeeds nor is refused.
+func (p *portSwitch) blackhole(closeFn func()) error { return p.fail(closeFn, true) }
+
+func (p *portSwitch) fail(closeFn func(), hole bool) error {
 	if p.ln == nil {
 		return nil
 	}
@@ -58,6 +63,17 @@ func (p *portSwitch) refuse(closeFn func()) error {
 	for i := 0; i < 40; i++ {
 		if err = syscall.Bind(fd, sa); err == nil {
 			p.ph = fd
+			if hole {
+				if err := syscall.Listen(fd, 0); err != nil {
+					return fmt.Errorf("placeholder listen: %w", err)
+				}
+				p.filler, _ = net.DialTimeout("tcp", "127.0.0.1:"+strconv.Itoa(p.port), time.Second)
+				// the queue must be full now: one more connect has to hang
+				if cn, err := net.DialTimeout("tcp", "127.0.0.1:"+strconv.Itoa(p.port), 300*time.Millisecond); err == nil {
+					cn.Close()
+					return fmt.Errorf("black hole not established (connect still succeeds)")
+				}
+			}
 			return nil
 		}
 		time.Sleep(5 * time.Millisecond)
@@ -67,6 +83,10 @@ func (p *portSwitch) refuse(closeFn func()) error {
 }
 
 func (p *portSwitch) release() {
+	if p.filler != nil {
+		p.filler.Close()
+		p.filler = nil
+	}
 	if p.ph >= 0 {
 		syscall.Close(p.ph)
 		p.ph = -1
